@@ -53,6 +53,10 @@ func init() {
 	// one member of a unified registry loses a write: the caller resumes (or, when the
 	// unifier refuses because the members disagree, starts again) and must end up with
 	// the exact content on both members
+	for _, kind := range []string{"mem", "http1"} {
+		kind := kind
+		register(&core.Scenario{Name: "c04-overtaken-writer-" + kind, Property: "C04", Weight: 1, Run: func(env *core.Env) { c04overtaken(env, kind) }})
+	}
 	register(&core.Scenario{Name: "c04-unify-member-loses-write", Property: "C04", Weight: 2, Bubble: true, LeakIsViolation: true, Run: func(env *core.Env) { c04(env, "unify-memberfault", false) }})
 }
 
@@ -566,4 +570,117 @@ func firstDiff(a, b []byte) int {
 		}
 	}
 	return n
+}
+
+// c04overtaken: two writers resumed on one upload at the offset that was right when
+// they were resumed. One writes; the other's data is then "sent at an offset
+// different from what the registry has already received" and must be refused
+// without altering the upload, whichever of them resumed first.
+func c04overtaken(env *core.Env, kind string) {
+	c := env.C
+	ctx := context.Background()
+	mem := ocimem.New()
+	var r ociregistry.Interface = mem
+	if kind != "mem" {
+		r, _ = httpHop(env, mem, &stackOpts{}, "hop")
+	}
+	repo := repoNames[c.Int("repo", len(repoNames))]
+	base := c.Bytes("base", []int{0, 1, 5, 300}[c.Int("baselen", 4)])
+	w0, err := r.PushBlobChunked(ctx, repo, 0)
+	if err != nil {
+		env.Failf("C04/start/unexpected-failure", "PushBlobChunked failed: %v", err)
+	}
+	if len(base) > 0 {
+		if _, err := w0.Write(base); err != nil {
+			env.Failf("C04/Write/unexpected-failure", "Write failed although no fault was injected: %v", err)
+		}
+	}
+	if err := w0.Close(); err != nil {
+		env.Failf("C04/Close/unexpected-failure", "Close failed although no fault was injected: %v", err)
+	}
+	id := w0.ID()
+	n := int64(len(base))
+	offset := func(tag string) int64 {
+		if n != 1 && c.Bool(tag, 1, 3) {
+			return -1 // ask the registry (excluded by the statement when exactly one byte is held)
+		}
+		return n
+	}
+	offA, offB := offset("a.asks"), offset("b.asks")
+	wA, err := r.PushBlobChunkedResume(ctx, repo, id, offA, 0)
+	if err != nil {
+		env.Failf("C04/resume/unexpected-failure", "PushBlobChunkedResume(offset %d) failed: %v", offA, err)
+	}
+	wB, err := r.PushBlobChunkedResume(ctx, repo, id, offB, 0)
+	if err != nil {
+		env.Failf("C04/resume/unexpected-failure", "second PushBlobChunkedResume(offset %d) failed: %v", offB, err)
+	}
+	first, second, offSecond := wA, wB, offB
+	if c.Bool("b-writes-first", 1, 2) {
+		first, second, offSecond = wB, wA, offA
+	}
+	if kind == "mem" && offSecond == -1 {
+		// Called directly, a writer resumed with -1 has no offset of its own ("continue
+		// where the last write left off"): whatever it writes is appended, by
+		// definition at the right place. Only over HTTP does -1 turn into the offset
+		// the registry reported at resume time. Nothing to be overtaken here.
+		env.Op("overtaken:not-applicable")
+		return
+	}
+	x := c.Bytes("x", c.Range("xlen", 1, 40))
+	y := c.Bytes("y", c.Range("ylen", 1, 40))
+	if _, err := first.Write(x); err != nil {
+		env.Failf("C04/Write/unexpected-failure", "Write at the right offset %d failed: %v", n, err)
+	}
+	if err := first.Close(); err != nil {
+		env.Failf("C04/Close/unexpected-failure", "Close failed although no fault was injected: %v", err)
+	}
+	env.Op("overtaken:" + kind)
+	env.Sample("%s: upload of %d bytes, writers resumed at offsets %d and %d; one writes %d bytes, then the other writes %d", kind, n, offA, offB, len(x), len(y))
+	held := func() int64 {
+		w, err := mem.PushBlobChunkedResume(ctx, repo, rawUploadID(id), -1, 0)
+		if err != nil {
+			core.Harnessf("cannot query backend upload: %v", err)
+		}
+		return w.Size()
+	}
+	// (the registry is not asked for its size here: on the in-memory registry the
+	// question itself is a resume and would interfere with the offsets under test)
+	before := n + int64(len(x))
+	_, werr := second.Write(y)
+	perr := werr
+	if perr == nil {
+		if c.Bool("finish-with-commit", 1, 3) {
+			_, perr = second.Commit(reg.Sha256(append(append(append([]byte{}, base...), x...), y...)))
+		} else {
+			perr = second.Close()
+		}
+	}
+	after := held()
+	env.Logf("second writer (resumed at %d when the registry held %d): write/flush -> %v; registry holds %d -> %d", offSecond, n, perr, before, after)
+	if perr == nil {
+		env.Failf("C04/stale/accepted", "a writer resumed at offset %d (the registry held %d bytes then) sent %d bytes after another writer had added %d: accepted, the registry now holds %d bytes", offSecond, n, len(y), len(x), after)
+	}
+	if after != before {
+		env.Failf("C04/stale/altered", "a refused write at the overtaken offset %d changed the upload from %d to %d bytes", n, before, after)
+	}
+	if !errors.Is(perr, ociregistry.ErrRangeInvalid) {
+		env.Failf("C04/stale/wrong-error", "data at the overtaken offset %d (registry holds %d) was refused with %s, want RANGE_INVALID: %v", n, before, reg.CodeOf(perr), perr)
+	}
+	// the upload can still be completed with exactly base+x
+	want := append(append([]byte{}, base...), x...)
+	w3, err := r.PushBlobChunkedResume(ctx, repo, id, -1, 0)
+	if before == 1 {
+		w3, err = r.PushBlobChunkedResume(ctx, repo, id, 1, 0)
+	}
+	if err != nil {
+		env.Failf("C04/resume/unexpected-failure", "PushBlobChunkedResume after the refused write failed: %v", err)
+	}
+	if _, err := w3.Commit(reg.Sha256(want)); err != nil {
+		env.Failf("C04/Commit/unexpected-failure", "Commit of the %d bytes the registry accepted failed: %v", len(want), err)
+	}
+	res := reg.Exec(ctx, r, &reg.Op{Kind: reg.GetBlob, Repo: repo, Digest: reg.Sha256(want), StopAfter: -1, ContentFault: -1}, nil)
+	if res.Err != nil || res.ReadErr != nil || !bytes.Equal(res.Data, want) {
+		env.Failf("C04/final/bytes", "after commit the blob reads as %d bytes (err %v / %v), want the %d bytes accepted", len(res.Data), res.Err, res.ReadErr, len(want))
+	}
 }
